@@ -110,6 +110,10 @@ def run(ctx):
         inputs.append(("constexpr", b))
     for b in W.const_expr_systematic():
         inputs.append(("constexpr_sys", b))
+    for b in W.builtin_arity_inputs():
+        inputs.append(("builtin_arity", b))
+    for b in W.void_call_inputs():
+        inputs.append(("void_call", b))
     hist = {}
     for t, _ in inputs:
         k = t.split(":")[0]
